@@ -65,7 +65,8 @@ MSet(m, v) ==
        ELSE IF v.name \in DOMAIN m /\ v.replace = 0 THEN [err |-> "EXIST", map |-> m]
        ELSE [err |-> "NONE", map |-> MapPut(m, v.name, MemberOf(v))]
   ELSE IF v.t = "json" THEN
-       IF v.jcls \notin {"obj", "arr"} THEN [err |-> "INVALID", map |-> m]
+       IF v.jcls = "objx" THEN [err |-> ANY, map |-> m]      \* opaque object (contents not modelled, C05)
+       ELSE IF v.jcls \notin {"obj", "arr"} THEN [err |-> "INVALID", map |-> m]
        ELSE IF NameBad(v.name) THEN
             IF v.jcls = "obj"
             THEN [err |-> "NONE",
